@@ -8,8 +8,13 @@ import (
 	"sync"
 	"time"
 
+	"github.com/influxdata/influxdb/v2/kit/platform"
+	"github.com/influxdata/kapacitor/task/backend/coordinator"
+	"github.com/influxdata/kapacitor/task/backend/executor"
 	"github.com/influxdata/kapacitor/task/backend/scheduler"
+	"github.com/influxdata/kapacitor/task/taskmodel"
 	"github.com/influxdata/kapacitor/zz_sim/simrt"
+	"go.uber.org/zap"
 )
 
 // C17 — scheduled task runs happen in order, exactly once, only while scheduled.
@@ -35,7 +40,8 @@ type c17Scenario struct {
 	Config    string    `json:"config"`
 }
 
-var c17Crons = []string{"@every 1s", "@every 2s", "@every 7s", "*/3 * * * * *", "*/10 * * * * * *", "15,45 * * * * * *", "@every 1m"}
+// the last two schedules run out (the world starts at 2021-03-04T05:06:07Z): after its last occurrence a task is simply not run again
+var c17Crons = []string{"@every 1s", "@every 2s", "@every 7s", "*/3 * * * * *", "*/10 * * * * * *", "15,45 * * * * * *", "@every 1m", "9,12,15 6 5 4 3 * 2021", "*/2 6 5 4 3 * 2021"}
 
 func c17Gen(c *Ctx) *c17Scenario {
 	g := c.G
@@ -130,7 +136,252 @@ func (s c17Sched) Schedule() scheduler.Schedule { return s.sch }
 func (s c17Sched) Offset() time.Duration        { return s.off }
 func (s c17Sched) LastScheduled() time.Time     { return s.last }
 
+// ---- the coordinator: task records (created, updated, deactivated, deleted) drive the scheduler ----
+// The task record carries two marks, the occurrence last handed to the executor (written by the scheduler's
+// checkpoint) and the occurrence last completed (written when a run ends, later).  Whatever happens to the record, an
+// occurrence at or before the later of the two marks the record carried when the coordinator was told must not run again.
+
+type c17CoordOp struct {
+	Kind  string `json:"op"` // update | deactivate | activate | delete | create | sleep | jump
+	Every string `json:"every,omitempty"`
+	OffS  int    `json:"offset_s,omitempty"`
+	DurMs int    `json:"ms,omitempty"`
+}
+
+type c17CoordScenario struct {
+	Kind   string       `json:"kind"`
+	Every  string       `json:"every"`
+	RunMs  []int        `json:"run_duration_ms"` // cycled: how long a run takes after the executor accepted it
+	Ops    []c17CoordOp `json:"ops"`
+	TailS  int          `json:"quiet_tail_s"`
+	Config string       `json:"config"`
+}
+
+type c17NoExecutor struct{}
+
+func (c17NoExecutor) ManualRun(ctx context.Context, id platform.ID, runID platform.ID) (executor.Promise, error) {
+	return nil, errors.New("not simulated")
+}
+func (c17NoExecutor) Cancel(ctx context.Context, runID platform.ID) error { return nil }
+
+// c17SchedSeam sits on the scheduler.Scheduler interface between the coordinator and the real TreeScheduler.
+type c17SchedSeam struct {
+	scheduler.Scheduler
+	onSchedule func(scheduler.Schedulable)
+}
+
+func (p c17SchedSeam) Schedule(t scheduler.Schedulable) error {
+	p.onSchedule(t)
+	return p.Scheduler.Schedule(t)
+}
+
+func runC17Coord(c *Ctx) Verdict {
+	g := c.G
+	sc := &c17CoordScenario{Kind: "coordinator", Every: []string{"1s", "2s", "3s"}[g.Intn(3)], TailS: g.Range(3, 10)}
+	sc.RunMs = []int{[]int{0, 400, 1500, 2600}[g.Intn(4)], []int{0, 2600, 700}[g.Intn(3)], []int{0, 5200}[g.Intn(2)]}
+	n := g.Range(2, 10)
+	for i := 0; i < n; i++ {
+		switch g.Intn(9) {
+		case 0, 1, 2:
+			sc.Ops = append(sc.Ops, c17CoordOp{Kind: "update", Every: []string{"", "", "1s", "2s"}[g.Intn(4)], OffS: []int{0, 0, 1}[g.Intn(3)]})
+		case 3:
+			sc.Ops = append(sc.Ops, c17CoordOp{Kind: "deactivate"}, c17CoordOp{Kind: "sleep", DurMs: []int{100, 2500}[g.Intn(2)]}, c17CoordOp{Kind: "activate"})
+		case 4:
+			sc.Ops = append(sc.Ops, c17CoordOp{Kind: "delete"}, c17CoordOp{Kind: "sleep", DurMs: []int{100, 2500}[g.Intn(2)]}, c17CoordOp{Kind: "create"})
+		case 5:
+			if !c.FaultFree {
+				sc.Ops = append(sc.Ops, c17CoordOp{Kind: "jump", DurMs: []int{1500, 20000}[g.Intn(2)]})
+				break
+			}
+			fallthrough
+		default:
+			sc.Ops = append(sc.Ops, c17CoordOp{Kind: "sleep", DurMs: []int{100, 1000, 2500, 700}[g.Intn(4)]})
+		}
+	}
+	c.Scenario = sc
+	cfg := c.WorldConfig()
+	cfg.StepCostNs = []int64{200_000, 1_000_000, 5_000_000}[g.Intn(3)]
+	cfg.MaxSteps = 8_000_000
+	sc.Config = fmt.Sprintf("%v p=%.2f step=%dns", cfg.Strategy, cfg.SwitchProb, cfg.StepCostNs)
+	type told struct {
+		kind                string
+		markS               int64 // the later of the record's two marks (and its creation time) when the coordinator was told
+		callStamp, retStamp int64
+	}
+	type run struct {
+		forS      int64
+		callStamp int64
+	}
+	var verdict Verdict
+	var tolds []told
+	var runs []run
+	res := c.World(cfg, func() {
+		start := time.Now().UTC().Truncate(time.Second)
+		// the task record, as the task store would hold it
+		var mu sync.Mutex
+		rec := &taskmodel.Task{ID: 7, Every: sc.Every, Status: string(taskmodel.TaskActive), CreatedAt: start, LatestCompleted: start}
+		nrun := 0
+		exec := executorFunc(func(ctx context.Context, id scheduler.ID, scheduledFor, runAt time.Time) error {
+			runs = append(runs, run{forS: scheduledFor.Unix(), callStamp: simrt.Stamp()})
+			nrun++
+			ms := sc.RunMs[nrun%len(sc.RunMs)]
+			// the executor accepts the run and returns; the run itself ends later and is then recorded as completed
+			go func() {
+				if ms > 0 {
+					time.Sleep(time.Duration(ms) * time.Millisecond)
+				}
+				mu.Lock()
+				if scheduledFor.After(rec.LatestCompleted) {
+					rec.LatestCompleted = scheduledFor
+				}
+				mu.Unlock()
+			}()
+			return nil
+		})
+		cp := checkpointFunc(func(ctx context.Context, id scheduler.ID, t time.Time) error {
+			mu.Lock()
+			if t.After(rec.LatestScheduled) {
+				rec.LatestScheduled = t
+			}
+			mu.Unlock()
+			return nil
+		})
+		s, _, err := scheduler.NewScheduler(exec, cp, scheduler.WithMaxConcurrentWorkers(2))
+		if err != nil {
+			verdict = Fail("harness/setup", "NewScheduler: %v", err)
+			return
+		}
+		// what the coordinator asks of the scheduler: the first occurrence it asks for must lie after both marks of the record
+		var pendingMark time.Time
+		seam := c17SchedSeam{Scheduler: s, onSchedule: func(t scheduler.Schedulable) {
+			next, err := t.Schedule().Next(t.LastScheduled())
+			if err == nil && !next.After(pendingMark) && verdict.Class == "" {
+				verdict = Fail("repeat-or-out-of-order", "the task record says that the occurrences up to %s have been handed to the executor or completed; the coordinator asks the scheduler to resume after %s, so that %s is run again", pendingMark.UTC().Format("15:04:05"), t.LastScheduled().UTC().Format("15:04:05"), next.UTC().Format("15:04:05"))
+			}
+		}}
+		co := coordinator.NewCoordinator(zap.NewNop(), seam, c17NoExecutor{})
+		snapshot := func() *taskmodel.Task {
+			mu.Lock()
+			defer mu.Unlock()
+			cpy := *rec
+			return &cpy
+		}
+		tell := func(kind string, f func(to *taskmodel.Task) error, to *taskmodel.Task) {
+			mark := to.CreatedAt
+			if to.LatestScheduled.After(mark) {
+				mark = to.LatestScheduled
+			}
+			if to.LatestCompleted.After(mark) {
+				mark = to.LatestCompleted
+			}
+			pendingMark = mark
+			t := told{kind: kind, markS: mark.Unix(), callStamp: simrt.Stamp()}
+			done := simrt.Expect("coordinator "+kind, 2_000_000, time.Hour)
+			err := f(to)
+			done()
+			t.retStamp = simrt.Stamp()
+			if err != nil && verdict.Class == "" {
+				verdict = Fail("harness/setup", "coordinator %s: %v", kind, err)
+			}
+			tolds = append(tolds, t)
+		}
+		ctx := context.Background()
+		tell("created", func(to *taskmodel.Task) error { return co.TaskCreated(ctx, to) }, snapshot())
+		for _, op := range sc.Ops {
+			switch op.Kind {
+			case "sleep":
+				time.Sleep(time.Duration(op.DurMs) * time.Millisecond)
+			case "jump":
+				simrt.JumpClock(time.Duration(op.DurMs) * time.Millisecond)
+			case "update", "activate", "deactivate":
+				from := snapshot()
+				mu.Lock()
+				if op.Every != "" {
+					rec.Every = op.Every
+				}
+				if op.Kind == "update" {
+					rec.Offset = time.Duration(op.OffS) * time.Second
+				}
+				if op.Kind == "activate" {
+					rec.Status = string(taskmodel.TaskActive)
+				}
+				if op.Kind == "deactivate" {
+					rec.Status = string(taskmodel.TaskInactive)
+				}
+				mu.Unlock()
+				to := snapshot()
+				if to.Status == string(taskmodel.TaskInactive) && op.Kind == "update" {
+					break // (an update of an inactive task would activate it in the scheduler: not what this scenario is about)
+				}
+				tell(op.Kind, func(to *taskmodel.Task) error { return co.TaskUpdated(ctx, from, to) }, to)
+			case "delete":
+				tell("deleted", func(to *taskmodel.Task) error { return co.TaskDeleted(ctx, to.ID) }, snapshot())
+			case "create":
+				// the same task is defined again: it keeps its marks (as a restored backup would)
+				mu.Lock()
+				rec.Status = string(taskmodel.TaskActive)
+				mu.Unlock()
+				tell("created", func(to *taskmodel.Task) error { return co.TaskCreated(ctx, to) }, snapshot())
+			}
+		}
+		simrt.Fair()
+		time.Sleep(time.Duration(sc.TailS) * time.Second)
+		go s.Stop()
+	})
+	if v, bad := WorldVerdict(res, false); bad {
+		return v
+	}
+	if verdict.Class != "" {
+		return verdict
+	}
+	if len(runs) == 0 {
+		c.Trivial = true
+	}
+	for i, t := range tolds {
+		hi := int64(1) << 62
+		if i+1 < len(tolds) {
+			hi = tolds[i+1].callStamp
+		}
+		first := true
+		for _, r := range runs {
+			if r.callStamp <= t.retStamp || r.callStamp >= hi {
+				continue
+			}
+			// (the first run after the call may have been handed to its worker under an earlier call's schedule: the previous
+			// one's, or, when calls follow one another with no run in between, one further back)
+			straggler := false
+			for j := i - 1; first && j >= 0; j-- {
+				if r.forS > tolds[j].markS {
+					straggler = true
+					break
+				}
+				busy := false
+				for _, r2 := range runs {
+					if r2.callStamp > tolds[j].retStamp && r2.callStamp < tolds[j+1].callStamp {
+						busy = true
+					}
+				}
+				if busy {
+					break
+				}
+			}
+			first = false
+			if r.forS <= t.markS && !straggler {
+				var fs []string
+				for _, r2 := range runs {
+					fs = append(fs, fmtS(r2.forS))
+				}
+				return Fail("repeat-or-out-of-order", "when the coordinator was told of the task (%s, call #%d) the record's marks said that everything up to %s had been handed to the executor or completed; after that call had returned the executor was invoked for %s again. all runs: %v", t.kind, i, fmtS(t.markS), fmtS(r.forS), fs)
+			}
+		}
+	}
+	return Pass()
+}
+
 func runC17(c *Ctx) Verdict {
+	if c.G.Chance(1, 6) {
+		return runC17Coord(c)
+	}
 	sc := c17Gen(c)
 	c.Scenario = sc
 	cfg := c.WorldConfig()
@@ -391,6 +642,10 @@ func runC17(c *Ctx) Verdict {
 					}
 					want, err = a.sch.Next(want)
 					if err != nil {
+						// the schedule has run out: this was its last occurrence
+						if i+1 < len(seq) {
+							return Fail("repeat-or-out-of-order", "task %d (epoch %d): %s was the last occurrence of the schedule, yet %d more Execute(s) followed (the next for %s); executions of the epoch: %s", id, k, fmtS(e.forS), len(seq)-i-1, fmtS(seq[i+1].forS), c17Seq(seq)), want, nil
+						}
 						break
 					}
 				}
@@ -458,6 +713,7 @@ func init() {
 		ID:  "C17",
 		Run: runC17,
 		Rule: "case = TreeScheduler with 1-4 workers on the virtual clock x 1-3 concurrent API clients issuing Schedule / re-Schedule (7 cron/@every forms, offsets -2..3s, lastScheduled up to 30s in the past) / Release over 1-4 task ids, sleeps and forward clock jumps (1.5s-2min) x executor latency (0-1.5s, in a fifth of the cases one run in eight takes three hours)/errors/panics and checkpointer latency/errors x one seeded schedule; then a fault-free quiet tail and Stop; " +
+			"(round 3) two of the schedules run out after a few occurrences; one case in six instead drives the scheduler through the real Coordinator (TaskCreated/TaskUpdated/TaskDeleted on a task record whose latest-scheduled mark is written by the scheduler's checkpoint and whose latest-completed mark 0-5.2s later): what the coordinator asks of the scheduler, observed on the scheduler.Scheduler interface, must resume after both marks, and no occurrence at or before them runs again (one straggler allowed); " +
 			"non-trivial = at least one Execute happened; distinct = distinct (scenario, interleaving signature) pairs",
 		Real:        []string{"task/backend/scheduler TreeScheduler (main loop, process, iterator, workers, Schedule, Release, Stop), Schedule/NewSchedule", "github.com/benbjohnson/clock (instrumented copy; real clock on the virtual time)", "influxdata/cron, google/btree (uninstrumented)"},
 		Stub:        []string{"recording Executor and SchedulableService (the property's own observation seam)"},
